@@ -22,6 +22,10 @@ def gen_lines(rnd, tier):
             L.append("verify|o|1|0|1:M%s:F%s|0" % (si, sc))
             L.append("verify|o|1|0|1:M%s:G%s|0" % (si, sc))
             L.append("verify|c|1|0|1:M%s:G%s|0" % (si, sc))
+        for k in (0, 1):
+            # a method whose self is absorbed by *args
+            L.append("verify|o|1|0|1:M%s:H0.0.1.%d|0" % (si, k))
+            L.append("verify|c|1|0|1:M%s:H0.0.1.%d|0" % (si, k))
     n = {"quick": 1500, "thorough": 40000}[tier]
     for _ in range(n):
         vt = rnd.choice("oc")
